@@ -61,8 +61,33 @@ def run(ctx):
             cur = []
         if ln is not None:
             cur.append(ln)
+    # Leg S: free-running callers on the real group; TLC infers arrivals, clean-ups and wake-ups (SingleFlightStress.tla)
+    st = os.path.join(ctx.scratch, "stress.ndjson")
+    s3 = V.harness(ctx, ["sf-stress", "-out", st, "-seed", ctx.seed, "-n", 80 if quick else 3000, "-workers", 4])
+    slines = open(st).read().splitlines(True)
+    cur, part, runs_in_cur = [], 0, 0
+    for ln in slines + [None]:
+        if ln is None or (ln.startswith('{"ev":"reset"') and runs_in_cur >= 600):
+            pf = os.path.join(ctx.scratch, "stress.%d.ndjson" % part)
+            open(pf, "w").writelines(cur)
+            for lineno in V.leg_s(ctx, "SingleFlightStress", "SingleFlightStress.cfg", pf, label="S%d" % part):
+                k = lineno
+                while k > 1 and not cur[k - 1].startswith('{"ev":"reset"'):
+                    k -= 1
+                run_lines = [json.loads(x) for x in cur[k - 1:lineno]]
+                V.report(ctx, "C16_NoInterleavingExplains", run_lines[-1],
+                         "free-running run of %d events on singleflight.Group: no order of arrivals, clean-ups and wake-ups makes the specification produce the observed executions, results and join counts" % len(run_lines),
+                         {"kind": "stress", "events": run_lines})
+            part += 1
+            cur, runs_in_cur = [], 0
+        if ln is not None:
+            if ln.startswith('{"ev":"reset"'):
+                runs_in_cur += 1
+            cur.append(ln)
+    ctx.cov["stress_runs"] = s3["executed"]
+    ctx.cov["stress_joined_returns"] = s3["extra"]["joined_returns"]
     joins = sum(1 for x in lines if '"role":"wait"' in x)
-    ctx.cov["evaluations"] = s["lines"]
+    ctx.cov["evaluations"] = s["lines"] + s3["lines"]
     ctx.cov["distinct_nontrivial"] = s["distinct"]
     ctx.cov["joins_observed"] = joins
     ctx.cov["targets"] = s["extra"]["targets"]
@@ -77,6 +102,12 @@ def run(ctx):
 def replay(ctx, path):
     rp = json.load(open(path))
     V.build_harness(ctx)
+    if rp.get("kind") == "stress":
+        pf = os.path.join(ctx.scratch, "stress.ndjson")
+        open(pf, "w").write("".join(json.dumps(e) + "\n" for e in rp["events"]))
+        for _ in V.leg_s(ctx, "SingleFlightStress", "SingleFlightStress.cfg", pf):
+            V.report(ctx, "C16_NoInterleavingExplains", rp["events"][-1], "recorded free-running run still has no explanation", {"kind": "stress", "events": rp["events"]})
+        return V.finish(ctx, RULE)
     one = os.path.join(ctx.scratch, "one.jsonl")
     open(one, "w").write(json.dumps(rp["behaviour"]["events"]) + "\n")
     obs = os.path.join(ctx.scratch, "sf.ndjson")
